@@ -272,7 +272,10 @@ def oracle_c01(plan, hist):
             k += 1
         rest = obs[k:]
         if k < len(pre):
-            ok = rest == cl
+            # (when the case is halted while it stands in a directory that a child has just removed, the `cd` that would
+            # have followed is skipped and a cleanup instruction that needs the current directory fails by itself: a
+            # prefix of the cleanup history is then all that can be asked for - found by the thorough tier)
+            ok = rest == cl or (bool(d.get('cwd_gone')) and rest == cl[:len(rest)])
         else:
             ok = rest == cl[:len(rest)]
     if not ok:
